@@ -1,0 +1,8 @@
+//go:build !verif
+// +build !verif
+
+package js_printer
+
+import "github.com/evanw/esbuild/internal/ast"
+
+func verifSymbolTag(symbols ast.SymbolMap, ref ast.Ref) string { return "" }
